@@ -160,7 +160,8 @@ type GenParser struct {
 	Files   map[string]string
 	Err     error
 	Opts    TMOpts
-	// RuleOfType maps a node type name to the compiled rule index carrying it as its rule type.
+	// RuleOfType maps a node type id (index in RangeTypes + 1, as printed by the runner) to the
+	// compiled rule index carrying it as its rule type.
 	RuleOfType map[string]int
 }
 
@@ -186,7 +187,7 @@ func compileTM(name, text string, o TMOpts) (gp *GenParser) {
 	if g.Parser != nil && g.Parser.Types != nil {
 		for i, r := range g.Parser.Rules {
 			if r.Type >= 0 && r.Type < len(g.Parser.Types.RangeTypes) {
-				gp.RuleOfType[g.Parser.Types.RangeTypes[r.Type].Name] = i
+				gp.RuleOfType[fmt.Sprint(r.Type+1)] = i
 			}
 		}
 	}
@@ -291,7 +292,7 @@ func runnerSrc(gp *GenParser) string {
 	if gp.Opts.Cancellable {
 		sb.WriteString("\tctx, cancel := context.WithCancel(context.Background())\n\tdefer cancel()\n\tevents := 0\n")
 	}
-	listener := fmt.Sprintf("func(t %s.NodeType, s, e int) { fmt.Fprintf(&sb, \"%%s:%%d:%%d \", t.String(), s, e)", name)
+	listener := fmt.Sprintf("func(t %s.NodeType, s, e int) { fmt.Fprintf(&sb, \"%%d:%%d:%%d \", int(t), s, e)", name)
 	if gp.Opts.Cancellable {
 		listener += "; events++; if events == cancelAt { cancel() }"
 	}
